@@ -29,6 +29,8 @@ pub struct Parks {
     pub out: Option<std::io::BufWriter<std::fs::File>>,
     pub written: u64,
     pub distinct: std::collections::HashSet<u64>,
+    /// client addresses of the sessions whose Mux::ready ran out of its iteration budget
+    pub budget: std::collections::HashSet<String>,
 }
 pub static PARKS: Mutex<Option<Parks>> = Mutex::new(None);
 
@@ -84,8 +86,15 @@ pub fn project_park(front: &str, backs: &str, streams: &str) -> Vec<Value> {
 
 pub fn install_park_sink(path: Option<&str>) {
     let out = path.map(|p| std::io::BufWriter::new(std::fs::File::create(p).expect("parks file")));
-    *PARKS.lock().unwrap() = Some(Parks { last: Default::default(), seq: 0, out, written: 0, distinct: Default::default() });
+    *PARKS.lock().unwrap() = Some(Parks { last: Default::default(), seq: 0, out, written: 0, distinct: Default::default(), budget: Default::default() });
     sozu_lib::verif::install(Box::new(|e| {
+        if e.kind == "mux_loop_budget" {
+            let peer = e.strs.iter().find(|(n, _)| *n == "peer").map(|(_, v)| v.clone()).unwrap_or_default();
+            if let Some(p) = PARKS.lock().unwrap().as_mut() {
+                p.budget.insert(peer);
+            }
+            return;
+        }
         if e.kind != "mux_ready_exit" {
             return;
         }
@@ -111,9 +120,9 @@ pub fn install_park_sink(path: Option<&str>) {
                 }
             }
             p.last.insert(peer, (seq, front, backs, streams));
-            if p.last.len() > 64 {
-                let min = p.last.values().map(|v| v.0).min().unwrap_or(0);
-                p.last.retain(|_, v| v.0 != min);
+            if p.last.len() > 20_000 {
+                let cut = seq.saturating_sub(200_000);
+                p.last.retain(|_, v| v.0 >= cut);
             }
         }
     }));
@@ -141,6 +150,9 @@ pub fn hol_cycle(front: &str, backs: &str, streams: &str) -> bool {
         streams.split(';').any(|st| kvi(st, "gid") == gid && kv(st, "gid").is_some() && kawa_of(kv(st, field).unwrap_or("")).3 < amount)
     };
     parked(front, "front") && backs.split(';').any(|b| !b.is_empty() && parked(b, "back"))
+}
+pub fn budget_hit(peer: &str) -> bool {
+    PARKS.lock().unwrap().as_ref().map(|p| p.budget.contains(peer)).unwrap_or(false)
 }
 pub fn park_counts() -> (u64, u64, usize) {
     let mut g = PARKS.lock().unwrap();
@@ -192,6 +204,7 @@ fn serve_backend(listener: TcpListener, sh: Arc<Shared>, h2: Option<(u32, u32, u
                     }
                     Some((w, mf, cw)) => {
                         let mut m = H2Peer::server(sh, w, mf, cw);
+                        m.ping_every = 50_000;
                         run_conn(&mut io, &mut m, mon);
                     }
                 }
@@ -258,6 +271,7 @@ impl Rig {
             b.h2_max_window_update_stream0_per_window = Some(1_000_000);
             b.h2_max_glitch_count = Some(1_000_000);
             b.h2_max_empty_data_per_window = Some(1_000_000);
+            b.h2_max_ping_per_window = Some(1_000_000);
         };
         let mut b = ListenerBuilder::new_http(http.into());
         tune(&mut b);
@@ -344,6 +358,9 @@ impl Rig {
                     } else {
                         let cw = if mix(plan.seed ^ 0xc0) % 3 == 0 { 65535 } else { 1 << 20 };
                         let mut m = H2Peer::client(self.sh.clone(), plan.clone(), cluster, cw);
+                        if mix(plan.seed ^ 0x91) % 3 == 0 {
+                            m.ping_every = 20_000 + mix(plan.seed ^ 0x92) % 60_000;
+                        }
                         outcome = run_conn(&mut io, &mut m, self.sh.mon.clone());
                         foreign = m.foreign_answers.clone();
                         proto_err = m.protocol_errors.clone();
@@ -380,6 +397,7 @@ impl Rig {
         self.sh.reg.lock().unwrap().remove(&run);
         let park = if outcome == Outcome::Stalled { park_of(&local_addr) } else { None };
         let park_hol = park.as_ref().map(|p| p["hol"] == true).unwrap_or(false);
+        let budget_kill = budget_hit(&local_addr);
         let evs = self.sh.log.take_run(run);
         let inconclusive = outcome == Outcome::Inconclusive || backend_pending || self.sh.inconclusive.lock().unwrap().contains(&run);
         let mut msgs = Vec::new();
@@ -406,11 +424,11 @@ impl Rig {
                 bytes += sev.iter().filter(|e| e["k"] == "sent").map(|e| e["len"].as_u64().unwrap_or(0)).sum::<u64>();
                 classes.push(format!("{kind}/{}/{:?}/{}/{}", dir_name(d as u8), mp.framing, size_class(mp.size, self.buffer_size), rp.rdelay_us > 0 || rp.h2_window < 65535));
                 let hdr = json!({"ev":"msg","run":run,"s":sp.idx,"d":dir_name(d as u8),"ns":sev.len(),"nr":rev.len(),"pair":kind,"nstreams":plan.streams.len(),
-                    "companion_aborted":companion_aborted,"park_hol":park_hol,"msg":msg_json(mp),"reader":read_json(rp),"cluster":cluster,"seed":plan.seed.to_string()});
+                    "companion_aborted":companion_aborted,"park_hol":park_hol,"budget_kill":budget_kill,"msg":msg_json(mp),"reader":read_json(rp),"cluster":cluster,"seed":plan.seed.to_string()});
                 msgs.push((hdr, sev, rev));
             }
         }
-        let summary = json!({"run":run,"pair":kind,"park":park,"streams":plan.streams.len(),"bytes":bytes,"outcome":format!("{:?}", outcome),
+        let summary = json!({"run":run,"pair":kind,"park":park,"budget_kill":budget_kill,"streams":plan.streams.len(),"bytes":bytes,"outcome":format!("{:?}", outcome),
             "sizes": plan.streams.iter().map(|s| json!([s.req.size, s.resp.size])).collect::<Vec<_>>(),
             "foreign_answers":foreign,"protocol_errors":proto_err,"goaway":goaway});
         RunResult { error, inconclusive, kind, classes, bytes, summary, msgs }
